@@ -854,7 +854,22 @@ class TorConfig:
             # v will be txtorcon.DEFAULT_VALUE already from
             # parse_keywords if it was unspecified
             real_name = self._find_real_name(k)
-            if real_name in self.parsers:
+            if real_name in self.list_parsers:
+                # keep list-valued options tracked lists, whether Tor
+                # reports zero, one or many values
+                if v == DEFAULT_VALUE:
+                    try:
+                        v = self._default_list(real_name)
+                    except KeyError:
+                        v = []
+                else:
+                    if real_name in self.parsers:
+                        v = self.parsers[real_name].parse(v)
+                    if not isinstance(v, list):
+                        v = [v]
+                v = _ListWrapper(
+                    v, functools.partial(self.mark_unsaved, real_name))
+            elif real_name in self.parsers:
                 v = self.parsers[real_name].parse(v)
             self.config[real_name] = v
 
